@@ -153,6 +153,11 @@ def gen_ruleset(rng, max_structs=4, max_pos=4, max_groups=4, max_vals=3, mode=No
         if names:
             t = rng.choice(names)
             spec['decoy_files'] = {t: gen_terminal_list(rng, t[0], int(t[1:]), max_groups, max_vals if t[0] != 'C' else 2, mode)}
+    # ... or names one file twice in a section's list
+    if rng.random() < 0.15:
+        names = [t for t in sorted(terminals) if t[0] not in 'XY']
+        if names:
+            spec['listed_twice'] = [rng.choice(names)]
     # a ruleset touched by hand or by another tool: the last record of some files is not followed by a newline
     if rng.random() < 0.2:
         names = sorted(terminals) + ['grammar'] + (['omen_prob'] if omen_prob else [])
